@@ -18,6 +18,7 @@ import (
 	"time"
 
 	"github.com/emmansun/gmsm/sm2"
+	x509 "github.com/emmansun/gmsm/smx509"
 	"pgregory.net/rapid"
 )
 
@@ -38,6 +39,13 @@ var c02Kinds = []string{
 	"wrongname-ip6",   //
 	"single",          // only one certificate presented
 	"mixedca",         // signing certificate trusted, encryption certificate from an unknown root
+	"sig-untrusted",   // the other way round
+	"enc-expired",     // only the encryption certificate is out of date
+	"enc-notyet",      //
+	"sig-expired",     // only the signing certificate is out of date
+	"sig-notyet",      //
+	"enc-wrongname",   // only the encryption certificate is not valid for the configured name
+	"sig-wrongname",   //
 	"sig-otherkey",    // key-exchange signature made with a key that is not the signing certificate's
 	"sig-otherrandoms", // signature over other randoms (replayed)
 	"sig-otherparams", // signature over another certificate (ECC) / other ECDH parameters (ECDHE)
@@ -53,7 +61,8 @@ func c02MustComplete(kind string, verify bool) bool {
 	switch kind {
 	case "honest":
 		return true
-	case "untrusted", "expired", "notyet", "wrongname", "wrongname-ip4", "wrongname-ip6", "mixedca":
+	case "untrusted", "expired", "notyet", "wrongname", "wrongname-ip4", "wrongname-ip6", "mixedca",
+		"sig-untrusted", "enc-expired", "enc-notyet", "sig-expired", "sig-notyet", "enc-wrongname", "sig-wrongname":
 		return !verify // verification off waives chain, dates and name ...
 	}
 	return false // ... but never the two proofs of possession, nor the two-certificate rule
@@ -89,6 +98,20 @@ func c02Run(c c02Case) (sig, msg string) {
 		ucfg.ServerName = "[2001:db8::1]"
 	case "mixedca":
 		encC = p.SrvEncB
+	case "sig-untrusted":
+		sigC = p.SrvSigB
+	case "enc-expired":
+		encC = p.SrvEncExpired
+	case "enc-notyet":
+		encC = p.SrvEncNotYet
+	case "sig-expired":
+		sigC = p.SrvSigExpired
+	case "sig-notyet":
+		sigC = p.SrvSigNotYet
+	case "enc-wrongname":
+		encC = p.SrvEncWrongName
+	case "sig-wrongname":
+		sigC = p.SrvSigWrongName
 	case "sig-otherkey":
 		sigC.PrivateKey = c02OtherKey()
 	case "no-enc-key":
@@ -199,41 +222,90 @@ func c02Run(c c02Case) (sig, msg string) {
 	return "", ""
 }
 
-// c02History: a session created by a non-verifying configuration and offered by a verifying one
-// that shares the cache (F13), and its honest control.
-func c02History(suite uint16, impostorCerts bool) (sig, msg string) {
+// c02History: a session created by a configuration under which the server's certificates were
+// acceptable (or not examined) and then offered by a verifying configuration that shares the cache
+// and under which they are not (F13). first: 0 verification disabled, 1 verifying but trusting the
+// other root, 2 verifying at a time when the certificates were in date. certs: the impostor kind of
+// the second configuration's point of view ("honest" is the control).
+type c02Hist struct {
+	Suite uint16 `json:"suite"`
+	First int    `json:"first"`
+	Certs string `json:"certs"`
+}
+
+func c02HistoryRun(h c02Hist) (sig, msg string, resumed bool) {
 	p := vfGetPKI()
 	cache := NewLRUSessionCache(8)
-	scfg := &Config{Time: vfTime, Certificates: []Certificate{p.SrvSig, p.SrvEnc}, CipherSuites: []uint16{suite}, SessionCache: NewLRUSessionCache(8)}
-	if impostorCerts {
-		scfg.Certificates = []Certificate{p.SrvSigB, p.SrvEncB}
+	sigC, encC := p.SrvSig, p.SrvEnc
+	name := vfServerName
+	switch h.Certs {
+	case "untrusted":
+		sigC, encC = p.SrvSigB, p.SrvEncB
+	case "expired":
+		sigC, encC = p.SrvSigExpired, p.SrvEncExpired
+	case "enc-expired":
+		encC = p.SrvEncExpired
+	case "sig-notyet":
+		sigC = p.SrvSigNotYet
+	case "wrongname":
+		sigC, encC = p.SrvSigWrongName, p.SrvEncWrongName
+	case "enc-wrongname":
+		encC = p.SrvEncWrongName
+	case "wrongname-ip4":
+		name = "192.0.2.99"
+	case "mixedca":
+		encC = p.SrvEncB
 	}
-	c1 := &Config{Time: vfTime, RootCAs: p.A.pool, ServerName: vfServerName, CipherSuites: []uint16{suite}, InsecureSkipVerify: true, SessionCache: cache,
+	scfg := &Config{Time: vfTime, Certificates: []Certificate{sigC, encC}, CipherSuites: []uint16{h.Suite}, SessionCache: NewLRUSessionCache(8)}
+	c2 := &Config{Time: vfTime, RootCAs: p.A.pool, ServerName: name, CipherSuites: []uint16{h.Suite}, SessionCache: cache,
 		Certificates: []Certificate{p.CliSig, p.CliEnc}}
+	c1 := c2.Clone()
+	c1.InsecureSkipVerify = true
+	if h.First == 1 {
+		// where possible the first configuration verifies too, in a setting in which the certificates pass
+		both := x509.NewCertPool()
+		both.AddCert(p.A.cert)
+		both.AddCert(p.B.cert)
+		switch h.Certs {
+		case "untrusted", "mixedca":
+			c1.RootCAs, c1.InsecureSkipVerify = both, false
+		case "expired": // (with only one certificate out of date there is no time at which both pass)
+			c1.Time, c1.InsecureSkipVerify = func() time.Time { return vfT0.AddDate(-2, -6, 0) }, false
+		}
+	}
 	r1 := vfRunPair(c1, scfg, vfPairOpt{})
 	if r1.CErr != nil || r1.SErr != nil {
-		return "honest-failed", fmt.Sprintf("non-verifying first connection failed: %v / %v", r1.CErr, r1.SErr)
+		return "honest-failed", fmt.Sprintf("first connection (certificates acceptable or not examined) failed: %v / %v", r1.CErr, r1.SErr), false
 	}
-	c2 := c1.Clone()
-	c2.InsecureSkipVerify = false
 	var got []byte
 	r2 := vfRunPair(c2, scfg, vfPairOpt{
 		SrvAct: func(cn *Conn) error { return vfSendAll(cn, []byte(c02Data)) },
 		CliAct: func(cn *Conn) error { b, err := vfRecvN(cn, len(c02Data)); got = b; return err },
 	})
 	if r2.CPanic != "" || r2.SPanic != "" {
-		return "panic", r2.CPanic + r2.SPanic
+		return "panic", r2.CPanic + r2.SPanic, false
 	}
-	if impostorCerts {
+	if !c02MustComplete(h.Certs, true) {
 		if r2.CErr == nil {
-			return "accepted-impostor:resumed-unverified", fmt.Sprintf("verifying client completed (resumed=%v) with a server whose certificates it never verified; read %q", r2.CS.DidResume, got)
+			return "accepted-impostor:resumed-unverified", fmt.Sprintf("verifying client completed (resumed=%v) with a server whose certificates (%s) do not pass its checks; they were recorded by a non-verifying configuration sharing the cache; read %q", r2.CS.DidResume, h.Certs, got), r2.CS.DidResume
 		}
-		return "", ""
+		return "", "", false
 	}
 	if r2.CErr != nil || r2.SErr != nil {
-		return "rejected-legitimate", fmt.Sprintf("verifying client failed against the genuine server after a non-verifying first connection: %v / %v", r2.CErr, r2.SErr)
+		return "rejected-legitimate", fmt.Sprintf("verifying client failed against the genuine server after a non-verifying first connection: %v / %v", r2.CErr, r2.SErr), false
 	}
-	return "", ""
+	return "", "", r2.CS.DidResume
+}
+
+var c02HistCerts = []string{"honest", "untrusted", "expired", "enc-expired", "sig-notyet", "wrongname", "enc-wrongname", "wrongname-ip4", "mixedca"}
+
+func c02History(suite uint16, impostorCerts bool) (sig, msg string) {
+	h := c02Hist{Suite: suite, Certs: "honest"}
+	if impostorCerts {
+		h.Certs = "untrusted"
+	}
+	sig, msg, _ = c02HistoryRun(h)
+	return
 }
 
 // c02TimeHistory: connections of one verifying client configuration family (same root pool, same
@@ -269,7 +341,7 @@ func c02TimeHistory(suite uint16, steps []int) (sig, msg string) {
 }
 
 func TestVF_C02(t *testing.T) {
-	rec := vfRec("C02", "C02-impostor", "impostor catalogue (15 kinds incl. honest control) x 4 suites x verification on/off played by a scripted server-role peer, plus the two-connection history 'session created without verification, offered with verification'; parametrised kinds also under rapid; oracle: must-fail / must-complete table from the property text; must-fail => Handshake error, HandshakeComplete false, Read returns no data although the impostor sends some; non-trivial = impostor other than the honest control; distinct = (kind, suite, mode, parameter)")
+	rec := vfRec("C02", "C02-impostor", "impostor catalogue (24 kinds incl. honest control) x 4 suites x verification on/off played by a scripted server-role peer, plus two-connection histories 'session recorded by a configuration that did not examine the certificates, offered by a verifying configuration sharing the cache' for 8 kinds of unacceptable certificates and the honest control; parametrised kinds also under rapid; oracle: must-fail / must-complete table from the property text; must-fail => Handshake error, HandshakeComplete false, Read returns no data although the impostor sends some; non-trivial = impostor other than the honest control; distinct = (kind, suite, mode, parameter)")
 	idx := 0
 	for _, kind := range c02Kinds {
 		for _, suite := range vfSuites {
@@ -292,21 +364,27 @@ func TestVF_C02(t *testing.T) {
 		}
 	}
 	for _, suite := range vfSuites {
-		for _, imp := range []bool{true, false} {
-			idx++
-			if !vfMine(idx) {
-				continue
+		for _, certs := range c02HistCerts {
+			for first := 0; first <= 1; first++ {
+				idx++
+				if !vfMine(idx) {
+					continue
+				}
+				h := c02Hist{Suite: suite, First: first, Certs: certs}
+				if certs != "honest" && vfKnown("F13") {
+					rec.Excluded("F13")
+					continue
+				}
+				sig, msg, resumed := c02HistoryRun(h)
+				if sig != "" {
+					rec.Violation(sig, h, "%s", msg)
+				}
+				cl := "kind:history"
+				if resumed {
+					cl = "kind:history-resumed"
+				}
+				rec.Eval(certs != "honest", h, cl, "history-certs:"+certs)
 			}
-			c := map[string]interface{}{"history": "unverified-session-then-verifying-config", "suite": suite, "impostor": imp}
-			if imp && vfKnown("F13") {
-				rec.Excluded("F13")
-				continue
-			}
-			sig, msg := c02History(suite, imp)
-			if sig != "" {
-				rec.Violation(sig, c, "%s", msg)
-			}
-			rec.Eval(imp, c, "kind:history")
 		}
 	}
 	// clock histories: all sequences of length <= 3 over {valid, expired, not yet valid}
@@ -336,7 +414,7 @@ func TestVF_C02(t *testing.T) {
 			}
 		}
 	}
-	rec.SetExhaustive(true, fmt.Sprintf("catalogue of %d (kind, suite, mode) cases and 8 histories enumerated completely; parametrised kinds additionally sampled", len(c02Kinds)*8))
+	rec.SetExhaustive(true, fmt.Sprintf("catalogue of %d (kind, suite, mode) cases and 72 session histories enumerated completely; parametrised kinds additionally sampled", len(c02Kinds)*8))
 	vfRapid(t, rec, "param", vfN(300, 5000), func(t *rapid.T) {
 		c := c02Case{Kind: rapid.SampledFrom([]string{"sig-corrupt", "sig-corrupt", "sig-otherrandoms", "sig-otherparams", "sig-otherkey", "no-enc-key", "honest"}).Draw(t, "kind"),
 			Suite: rapid.SampledFrom(vfSuites).Draw(t, "suite"), Verify: rapid.Bool().Draw(t, "verify"), Param: rapid.IntRange(0, 39).Draw(t, "param")}
